@@ -116,6 +116,9 @@ def contracts(repo):
     for sp in LC.request_specs(('read_frag', 'write_frag')):
         sp.ensures = [(l, t) for l, t in sp.ensures if l in C04_LABELS]
         items.append(sp)
+    # the fragments travel in the replies / requests the dialect produces (contracts of C01): the data is present for status 0x06 as for 0x00
+    from . import C01 as _C01
+    items += [s for s in _C01.logix_produce_specs() if 'frag' in s.name]
     return items
 
 
